@@ -32,9 +32,12 @@ type MW struct {
 	Fees    map[string][]uint64 // fee set to draw rotations from
 	step    int
 	// NoAmbiguity: honest operations must succeed (fault-free sub-profile)
-	Strict    bool
-	MPP       bool
-	exactMelt bool
+	Strict         bool
+	MPP            bool
+	exactMelt      bool
+	BeforeAudit    func() // runs in Finale after everything settled, before the drain audit
+	forceRotate    bool
+	keysCacheStale bool
 }
 
 func NewMW(rc *RunCtx, mints ...string) *MW {
@@ -299,11 +302,11 @@ func (m *MW) afterMelt(mint string, q *MeltQuote, ins []*HProof, r *Resp) {
 		m.rc.S.Probe("melt_unpaid")
 	default:
 		m.rc.S.Probe("melt_rejected")
-		// a melt answered with an error after the inputs were locked leaves them in an unknown state
-		if p := m.W.LN.Payments[mint+"|"+q.Hash]; p != nil && p.Attempts > 0 {
-			m.User.remove(mint, ins)
-			m.Pending = append(m.Pending, &PendingMelt{Mint: mint, Q: q, Ins: ins, Key: mint + "|" + q.Hash})
-		}
+		// a melt answered with an error leaves the inputs in a state the harness does not know
+		// (rejected before anything happened, or failed after they were locked): the next quote
+		// poll tells (settlePending)
+		m.User.remove(mint, ins)
+		m.Pending = append(m.Pending, &PendingMelt{Mint: mint, Q: q, Ins: ins, Key: mint + "|" + q.Hash})
 	}
 }
 
@@ -348,10 +351,16 @@ func (m *MW) settlePending() {
 		case "PAID":
 			m.Spent[pm.Mint] = append(m.Spent[pm.Mint], pm.Ins...)
 		case "UNPAID":
+			mb := m.W.Book.Mint(pm.Mint)
 			for _, p := range pm.Ins {
+				// released; unless somebody (the attacker's replay) consumed it meanwhile, acknowledged on the wire
+				if r := mb.Secrets[p.Secret]; r != nil && len(r.Cons) > 0 {
+					m.Spent[pm.Mint] = append(m.Spent[pm.Mint], p)
+					continue
+				}
 				p.Gone = false
+				m.User.Purse[pm.Mint] = append(m.User.Purse[pm.Mint], p)
 			}
-			m.User.Purse[pm.Mint] = append(m.User.Purse[pm.Mint], pm.Ins...)
 		default:
 			keep = append(keep, pm)
 		}
@@ -380,7 +389,12 @@ func (m *MW) StepReplay() {
 	ks := m.W.ActiveKeyset(mint)
 	name := m.name("replay")
 	m.rc.S.Probe("replay_" + src)
-	m.rc.S.BeginEpisode()
+	// sometimes one of the mint's reads during verification fails (storage error)
+	if k := m.T.Choose("replay.dberr", 6); k >= 3 {
+		m.rc.S.BeginEpisode(&FaultPlan{Node: mint, Kind: "db_error", SeamKind: "db", Pos: k - 2})
+	} else {
+		m.rc.S.BeginEpisode()
+	}
 	m.rc.S.Run1(name, m.W.Ext, func() {
 		a := m.Atk
 		cp := *victim
@@ -705,6 +719,9 @@ func (m *MW) StepRestore() {
 func (m *MW) StepRestart(allowRotate bool) {
 	mint := m.pickMint()
 	rotate := allowRotate && m.T.Chance("restart.rotate", 1, 2)
+	if m.forceRotate {
+		rotate = true
+	}
 	fees := m.Fees[mint]
 	fee := uint64(0)
 	if len(fees) > 0 {
@@ -788,6 +805,9 @@ func (m *MW) Finale() {
 	}
 	m.settlePending()
 	m.W.Book.FinalizeMelts()
+	if m.BeforeAudit != nil {
+		m.BeforeAudit()
+	}
 	for _, mint := range m.Mints {
 		m.Audit(mint)
 	}
@@ -1038,4 +1058,115 @@ func (m *MW) TakeFor(mint string, need uint64) []*HProof {
 		ins = more
 	}
 	return ins
+}
+
+// StepRotateRuntimeConcurrent: Mint.RotateKeyset on the running mint while a swap and a
+// mint request are in flight (scheduled against each other by the tape).
+func (m *MW) StepRotateRuntimeConcurrent() {
+	mint := m.pickMint()
+	fees := m.Fees[mint]
+	fee := uint64(0)
+	if len(fees) > 0 {
+		fee = fees[m.T.Choose("rot.fee", len(fees))]
+	}
+	m.rc.Op(fmt.Sprintf("rotate-runtime(%d)+traffic", fee))
+	node := m.W.Mints[mint]
+	ks := m.W.ActiveKeyset(mint)
+	m.rc.S.BeginEpisode()
+	m.rc.S.Go(m.name("rotate"), node.Inc, true, func() {
+		node.M.RotateKeyset(uint(fee))
+	})
+	ins := m.pickProofs(mint, 1)
+	if ins != nil {
+		f := m.feeFor(mint, ins)
+		if SumH(ins) > f {
+			outs := m.W.NewOutputs(Split(SumH(ins)-f), ks.ID)
+			name := m.name("rot.swap")
+			m.rc.S.Go(name, m.W.Ext, true, func() {
+				a := NewActor(m.W, name)
+				ps, r := a.Swap(mint, ins, outs)
+				if r.OK() {
+					m.User.remove(mint, ins)
+					m.Spent[mint] = append(m.Spent[mint], ins...)
+					m.User.Purse[mint] = append(m.User.Purse[mint], ps...)
+				}
+			})
+		}
+	}
+	m.rc.S.Drive(false)
+	m.rc.Quietly(func() { m.W.RefreshKeysets(mint, fee) })
+	m.rc.S.Probe("rotation")
+	m.rc.S.Probe("rotation_runtime_concurrent")
+}
+
+// StepConcurrentQueries: swaps, state checks and restores of the same secrets / outputs
+// race each other; the episode must be linearizable (porcupine).
+func (m *MW) StepConcurrentQueries() {
+	mint := m.pickMint()
+	ins := m.pickProofs(mint, 1+m.T.Choose("cq.k", 2))
+	if ins == nil {
+		m.StepFund()
+		return
+	}
+	fee := m.feeFor(mint, ins)
+	if SumH(ins) <= fee {
+		return
+	}
+	ks := m.W.ActiveKeyset(mint)
+	nSwap := 1 + m.T.Choose("cq.nswap", 2)
+	nCheck := 1 + m.T.Choose("cq.ncheck", 2)
+	nRestore := m.T.Choose("cq.nrestore", 2)
+	m.rc.Op(fmt.Sprintf("concurrent-queries s%d c%d r%d", nSwap, nCheck, nRestore))
+	from := len(m.W.Net.Obs)
+	Ys := make([]string, len(ins))
+	for i, p := range ins {
+		Ys[i] = p.Y()
+	}
+	if sp := m.Spent[mint]; len(sp) > 0 {
+		Ys = append(Ys, sp[m.T.Choose("cq.spent", len(sp))].Y())
+	}
+	var allOuts [][]*HOutput
+	won := false
+	m.rc.S.BeginEpisode()
+	for i := 0; i < nSwap; i++ {
+		outs := m.W.NewOutputs(Split(SumH(ins)-fee), ks.ID)
+		allOuts = append(allOuts, outs)
+		name := fmt.Sprintf("%s.swap%d", m.name("cq"), i)
+		m.rc.S.Go(name, m.W.Ext, true, func() {
+			a := NewActor(m.W, name)
+			ps, r := a.Swap(mint, ins, outs)
+			if r.OK() {
+				won = true
+				m.User.Purse[mint] = append(m.User.Purse[mint], ps...)
+			}
+		})
+	}
+	for i := 0; i < nCheck; i++ {
+		name := fmt.Sprintf("%s.check%d", m.name("cq"), i)
+		twice := m.T.Chance("cq.twice", 1, 2)
+		m.rc.S.Go(name, m.W.Ext, true, func() {
+			a := NewActor(m.W, name)
+			a.CheckState(mint, Ys)
+			if twice {
+				a.CheckState(mint, Ys)
+			}
+		})
+	}
+	for i := 0; i < nRestore; i++ {
+		name := fmt.Sprintf("%s.restore%d", m.name("cq"), i)
+		outs := allOuts[m.T.Choose("cq.which", len(allOuts))]
+		m.rc.S.Go(name, m.W.Ext, true, func() {
+			a := NewActor(m.W, name)
+			a.Restore(mint, outs)
+			a.Restore(mint, outs)
+		})
+	}
+	m.rc.S.Drive(false)
+	if won {
+		m.User.remove(mint, ins)
+		m.Spent[mint] = append(m.Spent[mint], ins...)
+	}
+	m.W.Book.LinCheckEpisode(from, "C15.not_linearizable")
+	m.rc.S.Probe("c15_concurrent_episode")
+	m.rc.Nontrivial = true
 }
